@@ -799,9 +799,15 @@ def names : List String := [
 %s
 ]
 
+/-- the same names as code points (kernel-reducible; compared with the JVMS names by `decide`) -/
+def nameCodes : List (List Nat) := [
+%s
+]
+
 end Gen.RawLayouts
 """ % (",\n".join(out), tyid["ClassFile"], tyid["CpInfo"], utf8_idx, tyid.get("AttributeInfo", 0), "\n".join(special),
-       ",\n".join("  " + ", ".join('"%s"' % s for s in nm.list[i:i + 6]) for i in range(0, len(nm.list), 6)))
+       ",\n".join("  " + ", ".join('"%s"' % s for s in nm.list[i:i + 6]) for i in range(0, len(nm.list), 6)),
+       ",\n".join("  [%s]" % ", ".join(str(ord(ch)) for ch in s) for s in nm.list))
     return text
 
 
